@@ -278,9 +278,10 @@ func (r *partReader) Read(p []byte) (int, error) {
 }
 
 type cbRec struct {
-	Data []byte
-	Init bool
+	Data  []byte
+	Init  bool
 	Start uint32
+	Pos   int // bytes consumed from the reader when the callback was made
 }
 
 // model walks the boxes of the whole stream (written from the statement): a callback at the end of every complete
@@ -336,7 +337,7 @@ func runParser(c Case, s []byte) (got []cbRec, err error, rd *partReader, bufLen
 		calls++
 		d := make([]byte, len(cd.Data))
 		copy(d, cd.Data)
-		got = append(got, cbRec{Data: d, Init: cd.IsInitSegment, Start: cd.Start})
+		got = append(got, cbRec{Data: d, Init: cd.IsInitSegment, Start: cd.Start, Pos: rd.pos})
 		return nil
 	}
 	p := chunkparser.NewMP4ChunkParser(rd, make([]byte, c.InitBuf), cb)
@@ -414,6 +415,11 @@ func checkCase(c Case) (*hx.Violation, info) {
 		}
 		if got[i].Init != want[i].Init {
 			return hx.V("init-flag", "callback %d: IsInitSegment=%v, a movie box was seen before its end: %v (reads %v, data+EOF %v)", i, got[i].Init, want[i].Init, c.Reads, c.DataEOF), inf
+		}
+		// "delivered as soon as it is complete": when the callback for a chunk is made, nothing beyond its last byte has
+		// been requested from the reader (on a live stream a read-ahead would wait for the next chunk)
+		if end := int(want[i].Start) + len(want[i].Data); got[i].Pos != end {
+			return hx.V("delivered-late", "callback %d (chunk ends at byte %d) was made after %d bytes had been read", i, end, got[i].Pos), inf
 		}
 		if got[i].Start != want[i].Start {
 			return hx.V("start-offset", "callback %d: Start=%d, chunk starts at offset %d", i, got[i].Start, want[i].Start), inf
